@@ -692,8 +692,11 @@ def main(tier, replay=None):
                        "random style (case, spacing, & and , continuations at arbitrary cut points, comments, blank lines), imported with "
                        "Segment.from_elegant / from_bmad and compared EXACTLY (tree shape, names, classes, every float32 parameter) with vm_compute of "
                        "the Coq denotation; malformed programs check the error channel; raw line lists vs read_clean_lines / "
-                       "merge_delimiter_continued_lines; random NX tables vs the float32-exact layout model.  Non-trivial = well-formed with >= 2 "
-                       "leaves (programs), >= 2 lines (line lists), >= 3 output elements (NX); distinct by full content.")
+                       "merge_delimiter_continued_lines; random heads of element definitions vs define_element; random NX tables vs the float32-exact "
+                       "layout model.  The regions of the findings F18 (sbend g, kicker l/kick), F40 (white space before the first comma), F41 "
+                       "(continuation mark on the last lines), F42, F43 (sbend without e1) are avoided while the finding is known and EXERCISED against "
+                       "the repaired transcription once it is fixed (per finding; see coverage.importer_model).  Non-trivial = well-formed with >= 2 "
+                       "leaves (programs), >= 2 lines (line lists), a matched head (definition heads), >= 3 output elements (NX); distinct by full content.")
     if replay:
         STATE["fx"], _, _ = probe_fixes(run, report=False)
         lg.set_repaired(STATE["fx"])
@@ -733,6 +736,7 @@ def main(tier, replay=None):
         run.count(k, v)
     run.cov["tested_only"] = ["text -> statement front end (regular expressions + eval) of fortran_namelist.py: program-level correspondence over the generator",
                               "line cleaning / continuation merging code vs Parse/Lines.v: exact differential runs on random line lists",
+                              "define_element's match of the head of a definition vs Parse/Lines.v define_header: exact differential runs on random heads",
                               "NX-table import vs Parse/NxTables.v float instance: exact differential runs; centres within 2e-5 m (float32 positions)",
                               "style / independent-reordering invariance, expansion order and total length on the implementation alone",
                               "CODATA constants and numpy degrees() are compared by value on each run"]
